@@ -109,6 +109,23 @@ def run(rng, tier):
                 try: r = op(u, u)
                 except Exception as e: yield case, 'raises %s' % type(e).__name__; continue
                 yield case, _cmp(u.data, orc(x, x))
+            if shp and shp[0] >= 2:
+                # right operand partially overlaps the left one (shifted / reversed / transposed views of the same buffer)
+                x3 = mk(rng, D, P, (4,) + tuple(shp[1:]))
+                views = [('x[1:] op= x[:-1]', lambda u: (u[1:], u[:-1]), lambda a_: (a_[:, :, 1:], a_[:, :, :-1])),
+                         ('x[:-1] op= x[1:]', lambda u: (u[:-1], u[1:]), lambda a_: (a_[:, :, :-1], a_[:, :, 1:])),
+                         ('x op= x[::-1]', lambda u: (u, u[::-1]), lambda a_: (a_, a_[:, :, ::-1]))]
+                if len(shp) == 2 and shp[0] == shp[1]: views.append(('A op= A.T', lambda u: (u, u.T), lambda a_: (a_, numpy.swapaxes(a_, 2, 3))))
+                for vname, mkv, mka in views:
+                    base = x3 if not vname.startswith('A') else mk(rng, D, P, shp)
+                    for opn, op, orc in IOPS:
+                        u = U(base.copy()); case = {'op': opn, 'kinds': vname + ' (overlapping views)', 'D': D, 'P': P, 'shape': list(base.shape[2:])}
+                        try:
+                            l, r_ = mkv(u); l = op(l, r_)
+                        except Exception as e: yield case, 'raises %s: %s' % (type(e).__name__, str(e)[:100]); continue
+                        la, ra = mka(base.copy()); want = orc(la.copy(), ra.copy())
+                        got = mka(u.data)[0]
+                        yield case, _cmp(got, want)
             if shp:
                 for opn, op, orc in IOPS:          # right operand is a view of the left
                     u = U(x.copy()); v = u[...]; case = {'op': opn, 'kinds': 'x op= view(x)', 'D': D, 'P': P, 'shape': list(shp)}
